@@ -51,7 +51,12 @@ func c04Fixed() []*vh.TSpec {
 	ptrs := vh.StructOf(vh.F("I", 1, p(k(vh.KInt))), vh.F("S", 2, p(k(vh.KString))), vh.F("St", 3, p(ab())), vh.F("Sl", 4, p(s(k(vh.KInt)))),
 		vh.F("T", 5, p(k(vh.KTime))), vh.F("F", 6, p(k(vh.KFloat32))))
 	nested := vh.StructOf(vh.F("In", 1, vh.StructOf(vh.F("In2", 1, vh.StructOf(vh.F("Ss", 1, s(k(vh.KString))), vh.F("M", 2, m(k(vh.KInt), ab())))), vh.F("Z", 2, k(vh.KInt)))), vh.F("Q", 17, k(vh.KString)))
+	bigIdx := vh.StructOf(vh.F("A", 1, k(vh.KInt)), vh.F("B", 8192, k(vh.KString)), vh.F("C", 70000, s(k(vh.KInt))), vh.F("D", 300, ab()))
+	wide := vh.StructOf(vh.F("F1", 1, k(vh.KUint64)), vh.F("F2", 12, k(vh.KUint64)), vh.F("F3", 3, k(vh.KInt64)), vh.F("F4", 11, k(vh.KString)),
+		vh.F("F5", 5, k(vh.KFloat64)), vh.F("F6", 10, k(vh.KBool)), vh.F("F7", 7, k(vh.KUint64)), vh.F("F8", 9, s(k(vh.KInt))), vh.F("F9", 8, ab()),
+		vh.F("F10", 6, k(vh.KTime)), vh.F("F11", 4, m(k(vh.KString), k(vh.KInt))), vh.F("F12", 2, k(vh.KUint64)))
 	return []*vh.TSpec{
+		bigIdx, wide,
 		k(vh.KInt), k(vh.KUint8), k(vh.KBool), k(vh.KFloat32), k(vh.KFloat64), k(vh.KString), k(vh.KBytes), k(vh.KTime),
 		s(k(vh.KInt)), s(k(vh.KBool)), s(k(vh.KUint32)), s(p(k(vh.KInt))), s(k(vh.KFloat64)), s(k(vh.KFloat32)),
 		s(k(vh.KString)), s(k(vh.KBytes)), s(k(vh.KTime)), s(s(k(vh.KInt))), s(ab()), s(p(ab())), s(p(k(vh.KString))),
